@@ -421,7 +421,13 @@ Lemma In_eids x l : In x l -> In (a_eid x) (eids l).
 Proof. apply in_map. Qed.
 
 Lemma AdjInv_init sw : AdjInv (fun _ => (0, 0)) 1 [] sw [] [].
-Proof. constructor; cbn; try constructor; try (intros ? []). intros e He. discriminate. Qed.
+Proof.
+  constructor.
+  - constructor.
+  - intros ? [].
+  - intros ? [].
+  - intros e He. discriminate.
+Qed.
 
 Lemma AdjInv_add ep nx fr sw fro buf id a b nx' fr' :
   AdjInv ep nx fr sw fro buf ->
@@ -465,7 +471,7 @@ Lemma not_entry_eid ep nx fr sw fro buf e x :
 Proof.
   intros I Hx. unfold not_entry. destruct (N.eqb_spec (a_eid x) e) as [E|E]; [|now rewrite andb_false_r].
   destruct (a_buf _ _ _ _ _ _ I _ Hx) as [_ H2]. rewrite E in H2. rewrite H2.
-  rewrite <- E at 2. rewrite mk_ent_pair, N.eqb_refl. reflexivity.
+  subst e. rewrite mk_ent_pair, N.eqb_refl. reflexivity.
 Qed.
 
 Lemma filter_ext_in' {A} (f g : A -> bool) l : (forall x, In x l -> f x = g x) -> filter f l = filter g l.
@@ -514,18 +520,22 @@ Proof.
   - intros e H. rewrite app_nil_r. now apply (a_all _ _ _ _ _ _ I).
 Qed.
 
-Lemma AdjInv_free_sub ep nx fr fr' sw fro buf :
-  AdjInv ep nx fr sw fro buf -> (forall x, In x fr' -> In x fr) -> AdjInv ep nx fr' sw fro buf.
-Proof.
-  intros I H. constructor; try apply I. intros x Hx. destruct (a_fro _ _ _ _ _ _ I _ Hx) as [H1 [H2 H3]]. auto.
-Qed.
-
 Lemma InvE_init : InvE (es init).
 Proof.
-  constructor; unfold live_e; cbn; try (intros; discriminate); try constructor; try lia;
-    try (intros ? []); try apply AdjInv_init; try tauto.
+  constructor; unfold live_e; cbn.
+  - lia.
+  - intros e H; discriminate.
+  - intros e [].
+  - constructor.
   - intros e _. auto.
-  - intros ? ? [].
+  - intros e H; discriminate.
+  - constructor.
+  - intros t e [].
+  - intros _ t e H; discriminate.
+  - apply AdjInv_init.
+  - apply AdjInv_init.
+  - tauto.
+  - reflexivity.
 Qed.
 
 Lemma get_edge_Some s e a b t p :
@@ -540,4 +550,892 @@ Lemma get_edge_live s e : InvE s -> (get_edge s e <> None <-> live_e s e = true)
 Proof.
   intros I. unfold get_edge. destruct (live_e s e) eqn:L; [|split; congruence].
   destruct (e_type _ I _ L) as [t [-> _]]. split; congruence.
+Qed.
+
+Lemma add_edge_fresh s hint a b t ps stub s' id :
+  InvE s -> add_edge s hint a b t ps stub = (s', id) ->
+  live_e s id = false /\ 0 < id /\ id < next_edge s' /\ next_edge s <= next_edge s' /\
+  (In id (free_edges s) \/ next_edge s <= id) /\
+  (forall x, In x (free_edges s') -> In x (free_edges s) /\ x <> id) /\ NoDup (free_edges s').
+Proof.
+  intros I H. unfold add_edge in H.
+  destruct (alloc (free_edges s) (next_edge s) hint) as [[i fr] nx] eqn:A. inversion H; subst; clear H. cbn.
+  destruct (alloc_spec _ _ _ _ _ _ A (e_free_nd _ I)) as [[Hin [-> [ND Hx]]]|[E0 [-> [-> ->]]]].
+  - pose proof (e_free _ I _ Hin). repeat split; auto; try lia.
+    + destruct (live_e s id) eqn:L; auto. destruct (e_range _ I _ L). contradiction.
+    + now apply Hx. + now apply Hx.
+  - pose proof (e_pos _ I). repeat split; auto; try lia; try (intros ? []); try constructor.
+    + destruct (live_e s (next_edge s)) eqn:L; auto. destruct (e_range _ I _ L). lia.
+    + destruct H0.
+Qed.
+
+Lemma InvE_add s hint a b t ps stub s' id :
+  InvE s -> 0 < a -> add_edge s hint a b t ps stub = (s', id) -> InvE s'.
+Proof.
+  intros I Ha H.
+  destruct (add_edge_fresh _ _ _ _ _ _ _ _ _ I H) as [Hd [Hp [Hlt [Hle [Hid [Hfr Hfn]]]]]].
+  assert (Hz : zero2 (a, b) = false).
+  { unfold zero2; cbn. destruct (N.eqb_spec a 0); [lia | reflexivity]. }
+  unfold add_edge in H.
+  destruct (alloc (free_edges s) (next_edge s) hint) as [[i fr] nx] eqn:A. inversion H; subst; clear H.
+  cbn in Hlt, Hle, Hfr, Hfn.
+  set (s' := {| endp := upd (endp s) id (a, b) |}).
+  assert (LV : forall e, live_e s' e = if N.eqb e id then true else live_e s e).
+  { intros e. unfold live_e, s'; cbn. unfold upd. destruct (N.eqb e id); auto. now rewrite Hz. }
+  assert (Hnf : forall x, In x (fout s) -> a_eid x <> id).
+  { intros x Hx E. destruct (a_fro _ _ _ _ _ _ (e_out _ I) _ Hx) as [H1 [H2 _]]. rewrite E in *.
+    destruct Hid; [contradiction | lia]. }
+  constructor; cbn.
+  - pose proof (e_pos _ I). lia.
+  - intros e. rewrite LV. destruct (N.eqb_spec e id) as [->|Hne].
+    + intros _. split; [lia|]. intros HI. apply Hfr in HI as [_ HI]. congruence.
+    + intros L. destruct (e_range _ I _ L) as [H1 H2]. split; [lia|]. intros HI. apply Hfr in HI as [HI _]. contradiction.
+  - intros e HI. apply Hfr in HI as [HI _]. apply (e_free _ I) in HI. lia.
+  - auto.
+  - intros e. rewrite LV. destruct (N.eqb_spec e id) as [->|Hne]; [discriminate|].
+    intros L. destruct (e_dead _ I _ L) as [H1 [H2 H3]].
+    rewrite upd_other by auto. split; auto.
+    destruct ps; rewrite ?upd_other by auto; auto.
+  - intros e. rewrite LV. unfold upd. destruct (N.eqb_spec e id) as [->|Hne].
+    + intros _. exists t. split; auto. apply set_add_In. auto.
+    + intros L. destruct (e_type _ I _ L) as [t' [H1 H2]]. exists t'. split; auto. apply set_add_In. auto.
+  - destruct stub; [apply I | apply pset_add_NoDup, I].
+  - intros t' e HI. rewrite LV. unfold upd.
+    assert (HH : (t', e) = (t, id) \/ In (t', e) (tidx s)).
+    { destruct stub; [right; auto | now apply pset_add_In]. }
+    destruct HH as [HH|HH].
+    + inversion HH; subst. now rewrite N.eqb_refl.
+    + destruct (e_tidx _ I _ _ HH) as [H1 H2]. destruct (N.eqb_spec e id) as [->|Hne]; [congruence | auto].
+  - intros Hs t' e. rewrite LV. unfold upd. apply orb_false_iff in Hs as [Hs ->].
+    destruct (N.eqb_spec e id) as [->|Hne].
+    + intros _ E. inversion E; subst. apply pset_add_In. auto.
+    + intros L E. apply pset_add_In. right. now apply (e_tidx_c _ I).
+  - change ({| a_node := a; a_nbr := b; a_eid := id |}) with (mk_ent false (a, b) id).
+    eapply AdjInv_add; [apply (e_out _ I) | ..]; eauto.
+  - change ({| a_node := b; a_nbr := a; a_eid := id |}) with (mk_ent true (a, b) id).
+    eapply AdjInv_add; [apply (e_in _ I) | ..]; eauto.
+  - intros e. cbn. rewrite (e_tiers _ I). tauto.
+  - rewrite (e_fdead _ I). f_equal. f_equal. apply filter_ext_in'. intros x Hx.
+    rewrite LV. destruct (N.eqb_spec (a_eid x) id) as [E|E]; auto. exfalso. eapply Hnf; eauto.
+Qed.
+
+Lemma eids_filter_ne ep nx fr sw fro buf e x :
+  AdjInv ep nx fr sw fro buf ->
+  (In x (eids (filter (not_entry (a_node (mk_ent sw (ep e) e)) e) buf)) <-> In x (eids buf) /\ x <> e).
+Proof.
+  intros I.
+  rewrite (filter_ext_in' _ (fun x => negb (N.eqb (a_eid x) e))) by (intros; eapply not_entry_eid; eauto).
+  unfold eids. rewrite !in_map_iff. split.
+  - intros [y [E Hy]]. apply filter_In in Hy as [Hy Hne]. apply negb_true_iff, N.eqb_neq in Hne.
+    split; [eauto | congruence].
+  - intros [[y [E Hy]] Hne]. exists y. split; auto. apply filter_In. split; auto.
+    apply negb_true_iff, N.eqb_neq. congruence.
+Qed.
+
+Lemma count_one_more {A} (f : A -> N) (p p' : A -> bool) l x :
+  NoDup (map f l) -> In x l -> p x = false ->
+  (forall y, p' y = p y || N.eqb (f y) (f x)) ->
+  length (filter p' l) = S (length (filter p l)).
+Proof.
+  intros ND Hx Hp Hp'. induction l as [|y l IH]; [destruct Hx|].
+  cbn in ND. inversion ND as [|? ? Hn Hd]; subst. cbn. destruct Hx as [->|Hx].
+  - rewrite Hp', Hp, N.eqb_refl. cbn. f_equal. f_equal. apply filter_ext_in'. intros y Hy.
+    rewrite Hp'. destruct (N.eqb_spec (f y) (f x)) as [E|E]; [|now rewrite orb_false_r].
+    exfalso. apply Hn. rewrite <- E. now apply in_map.
+  - rewrite Hp'. destruct (N.eqb_spec (f y) (f x)) as [E|E].
+    + exfalso. apply Hn. rewrite E. now apply in_map.
+    + rewrite orb_false_r. destruct (p y); cbn; rewrite IH; auto.
+Qed.
+
+Lemma InvE_delete s e : InvE s -> InvE (fst (delete_edge s e)).
+Proof.
+  intros I. unfold delete_edge. destruct (get_edge s e) as [[[[a b] t] p]|] eqn:G; [|exact I].
+  destruct (get_edge_Some _ _ _ _ _ _ G) as [L [EP [ET _]]]. cbn [fst].
+  remember (Nat.ltb (length (filter (not_entry a e) (bout s))) (length (bout s))) as inb eqn:Einb.
+  assert (Ha : a = a_node (mk_ent false (endp s e) e)) by (rewrite EP; reflexivity).
+  assert (Hb : b = a_node (mk_ent true (endp s e) e)) by (rewrite EP; reflexivity).
+  assert (INB : inb = true <-> In e (eids (bout s))).
+  { rewrite Einb. rewrite Nat.ltb_lt, length_filter_lt. split.
+    - intros [x [Hx Hn]]. unfold not_entry in Hn. apply negb_false_iff, andb_true_iff in Hn as [_ Hn].
+      apply N.eqb_eq in Hn. rewrite <- Hn. now apply In_eids.
+    - intros HI. apply in_map_iff in HI as [x [E Hx]]. exists x. split; auto.
+      rewrite Ha. erewrite not_entry_eid; [|apply (e_out _ I)|auto]. rewrite E, N.eqb_refl. reflexivity. }
+  destruct (e_range _ I _ L) as [R1 R2].
+  set (s' := {| endp := upd (endp s) e (0, 0) |}).
+  assert (LV : forall x, live_e s' x = if N.eqb x e then false else live_e s x).
+  { intros x. unfold live_e, s'; cbn. unfold upd. destruct (N.eqb x e); auto. }
+  constructor; cbn.
+  - apply I.
+  - intros x. rewrite LV. destruct (N.eqb_spec x e) as [->|Hne]; [discriminate|].
+    intros Lx. destruct (e_range _ I _ Lx) as [H1 H2]. split; auto.
+    destruct inb; auto. intros [E|HI]; [congruence | contradiction].
+  - intros x Hx. destruct inb; [destruct Hx as [<-|Hx]; auto|]; now apply (e_free _ I).
+  - destruct inb; [constructor; auto|]; apply I.
+  - intros x. rewrite LV. unfold upd. destruct (N.eqb_spec x e) as [->|Hne]; [auto|]. apply I.
+  - intros x. rewrite LV. unfold upd. destruct (N.eqb_spec x e) as [->|Hne]; [discriminate|]. apply I.
+  - apply pset_rem_NoDup, I.
+  - intros t' x HI. apply pset_rem_In in HI as [HI Hne]. destruct (e_tidx _ I _ _ HI) as [H1 H2].
+    rewrite LV. unfold upd. destruct (N.eqb_spec x e) as [->|Hx]; auto. exfalso. apply Hne. congruence.
+  - intros Hs t' x. rewrite LV. unfold upd. destruct (N.eqb_spec x e) as [->|Hx]; [discriminate|].
+    intros Lx Et. apply pset_rem_In. split; [now apply (e_tidx_c _ I) | congruence].
+  - rewrite Ha. apply AdjInv_del; auto. apply I.
+  - rewrite Hb. apply AdjInv_del; auto. apply I. rewrite INB. apply (e_tiers _ I).
+  - intros x. rewrite Ha at 1. rewrite Hb. rewrite (eids_filter_ne _ _ _ _ _ _ _ _ (e_out _ I)).
+    rewrite (eids_filter_ne _ _ _ _ _ _ _ _ (e_in _ I)). rewrite (e_tiers _ I). tauto.
+  - rewrite (e_fdead _ I). pose proof (a_nd _ _ _ _ _ _ (e_out _ I)) as ND. rewrite eids_app in ND.
+    destruct inb eqn:EI.
+    + f_equal. f_equal. apply filter_ext_in'. intros x Hx. rewrite LV.
+      destruct (N.eqb_spec (a_eid x) e) as [E|E]; auto. exfalso.
+      eapply NoDup_app_disj; eauto. * apply In_eids; eauto. * rewrite E. now apply INB.
+    + pose proof (a_all _ _ _ _ _ _ (e_out _ I) e L) as HA. rewrite EP in HA.
+      apply in_app_or in HA as [HA|HA].
+      * rewrite (count_one_more a_eid (fun x => negb (live_e s (a_eid x))) (fun x => negb (live_e s' (a_eid x))) (fout s) _ (NoDup_app_l _ _ ND) HA).
+        -- lia.
+        -- cbn. now rewrite L.
+        -- intros y. rewrite LV. cbn [mk_ent a_eid fst snd]. destruct (N.eqb (a_eid y) e); cbn; auto.
+           ++ now rewrite orb_true_r.
+           ++ now rewrite orb_false_r.
+      * exfalso. assert (X : false = true); [|discriminate]. apply INB. apply In_eids in HA. now rewrite mk_ent_eid in HA.
+Qed.
+
+Lemma InvE_with_props s P C U :
+  InvE s -> (forall e, live_e s e = false -> P e = None /\ C e = []) ->
+  InvE {| endp := endp s; etype := etype s; eprops := P; ecols := C; next_edge := next_edge s;
+          free_edges := free_edges s; tidx := tidx s; interned := interned s; bout := bout s;
+          bin := bin s; fout := fout s; fin := fin s; fdead := fdead s; unsorted := U;
+          tstale := tstale s |}.
+Proof.
+  intros I H. constructor; cbn; try apply I.
+  intros e L. change (live_e s e = false) in L. destruct (e_dead _ I _ L) as [H1 _]. destruct (H _ L). auto.
+Qed.
+
+Lemma InvE_set_eprop s e k v : InvE s -> InvE (fst (set_eprop s e k v)).
+Proof.
+  intros I. unfold set_eprop. destruct (live_e s e) eqn:L; [|exact I]. cbn [fst].
+  apply InvE_with_props; auto. intros x Lx. assert (x <> e) by congruence.
+  rewrite !upd_other by auto. destruct (e_dead _ I _ Lx) as [_ [? ?]]. auto.
+Qed.
+
+Lemma InvE_rem_eprop s e k : InvE s -> InvE (rem_eprop s e k).
+Proof.
+  intros I. unfold rem_eprop. apply InvE_with_props; auto. intros x Lx.
+  destruct (e_dead _ I _ Lx) as [_ [H1 H2]]. destruct (N.eq_dec x e) as [->|Hne].
+  - rewrite Lx, upd_same, H2. auto.
+  - rewrite (upd_other (ecols s)) by auto. destruct (live_e s e); rewrite ?upd_other by auto; auto.
+Qed.
+
+Lemma filter_none {A} (p : A -> bool) l : (forall x, In x l -> p x = false) -> filter p l = [].
+Proof. induction l; cbn; intros H; auto. rewrite (H a) by auto. apply IHl. auto. Qed.
+
+Lemma InvE_compact_do s :
+  InvE s ->
+  InvE {| endp := endp s; etype := etype s; eprops := eprops s; ecols := ecols s;
+          next_edge := next_edge s; free_edges := free_edges s; tidx := tidx s;
+          interned := interned s; bout := []; bin := [];
+          fout := fout s ++ bout s; fin := fin s ++ bin s;
+          fdead := fdead s; unsorted := false; tstale := tstale s |}.
+Proof.
+  intros I. constructor; cbn; try apply I.
+  - apply AdjInv_compact; [apply I|]. intros e L. now apply (e_range _ I).
+  - apply AdjInv_compact; [apply I|]. intros e L. now apply (e_range _ I).
+  - tauto.
+  - unfold live_e; cbn [endp]. rewrite (e_fdead _ I). unfold live_e. f_equal. rewrite filter_app, app_length.
+    rewrite (filter_none _ (bout s)); [cbn; lia|].
+    intros x Hx. destruct (a_buf _ _ _ _ _ _ (e_out _ I) _ Hx) as [H1 _].
+    unfold lv in H1. now rewrite H1.
+Qed.
+
+Lemma InvE_compact s : InvE s -> InvE (compact s).
+Proof.
+  intros I. unfold compact. pose proof (InvE_compact_do s I) as C.
+  pose proof (InvE_with_props s (eprops s) (ecols s) false I (fun e L => match e_dead _ I e L with conj _ H => H end)) as X.
+  destruct (bout s) eqn:B1; destruct (bin s) eqn:B2; auto.
+Qed.
+
+Lemma rebuild_tidx_In s t e :
+  In (t, e) (rebuild_tidx s) <-> e < next_edge s /\ live_e s e = true /\ etype s e = Some t.
+Proof.
+  unfold rebuild_tidx. rewrite in_flat_map. split.
+  - intros [x [Hx HI]]. apply range_In in Hx. destruct (live_e s x) eqn:L; [|destruct HI].
+    destruct (etype s x) eqn:T; [|destruct HI]. destruct HI as [HI|[]]. inversion HI; subst. auto.
+  - intros [H1 [H2 H3]]. exists e. split; [now apply range_In|]. rewrite H2, H3. now left.
+Qed.
+
+Lemma NoDup_flat_map_single {A B} (f : A -> list B) l :
+  NoDup l -> (forall x, NoDup (f x)) -> (forall x y b, In b (f x) -> In b (f y) -> x = y) ->
+  NoDup (flat_map f l).
+Proof.
+  induction l as [|x l IH]; cbn; intros ND Hf Hinj; [constructor|]. inversion ND; subst.
+  apply NoDup_app_intro; auto.
+  intros b Hb1 Hb2. apply in_flat_map in Hb2 as [y [Hy Hb2]]. assert (x = y) by eauto. subst. contradiction.
+Qed.
+
+Lemma InvE_finish s : InvE s -> InvE (finish_bulk s).
+Proof.
+  intros I0. pose proof (InvE_compact s I0) as I. unfold finish_bulk. set (c := compact s) in *.
+  constructor; cbn; try apply I.
+  - apply NoDup_flat_map_single; [apply range_NoDup | |].
+    + intros x. destruct (live_e c x); [|constructor]. destruct (etype c x); repeat constructor. intros [].
+    + intros x y b. destruct (live_e c x); [|intros []]. destruct (etype c x); [|intros []].
+      destruct (live_e c y); [|intros _ []]. destruct (etype c y); [|intros _ []].
+      intros [<-|[]] [E|[]]. now inversion E.
+  - intros t e HI. apply rebuild_tidx_In in HI. tauto.
+  - intros _ t e L T. apply rebuild_tidx_In. destruct (e_range _ I _ L). repeat split; auto. lia.
+Qed.
+
+Lemma InvE_delete_ignore_fold l s : InvE s -> InvE (fold_left delete_edge_ignore l s).
+Proof. revert s. induction l; cbn; intros s I; auto. apply IHl. now apply InvE_delete. Qed.
+
+(* ---------------------------------------------------------------- whole-store invariant *)
+Definition InvX (s : state) : Prop :=
+  forall e, live_e (es s) e = true ->
+    live_n (ns s) (fst (endp (es s) e)) = true /\ live_n (ns s) (snd (endp (es s) e)) = true.
+
+Definition Inv (s : state) : Prop := InvN (ns s) /\ InvE (es s) /\ InvX s.
+
+Lemma delete_edge_mono s e x :
+  live_e (fst (delete_edge s e)) x = true ->
+  live_e s x = true /\ endp (fst (delete_edge s e)) x = endp s x /\ x <> e \/
+  (fst (delete_edge s e) = s /\ live_e s x = true).
+Proof.
+  unfold delete_edge. destruct (get_edge s e) as [[[[a b] t] p]|] eqn:G; cbn [fst]; [|auto].
+  unfold live_e; cbn. unfold upd. destruct (N.eqb_spec x e) as [->|Hne]; [discriminate|]. auto.
+Qed.
+
+Lemma delete_edge_kills s e : InvE s -> live_e (fst (delete_edge s e)) e = false.
+Proof.
+  intros I. unfold delete_edge. destruct (get_edge s e) as [[[[a b] t] p]|] eqn:G; cbn [fst].
+  - unfold live_e; cbn. now rewrite upd_same.
+  - destruct (live_e s e) eqn:L; auto. apply (get_edge_live _ _ I) in L. congruence.
+Qed.
+
+Lemma fold_delete_mono l s x :
+  live_e (fold_left delete_edge_ignore l s) x = true ->
+  live_e s x = true /\ endp (fold_left delete_edge_ignore l s) x = endp s x.
+Proof.
+  revert s. induction l as [|e l IH]; cbn; intros s H; auto.
+  apply IH in H as [H1 H2]. unfold delete_edge_ignore in *.
+  apply delete_edge_mono in H1 as [[H1 [H3 _]]|[H3 H1]]; split; auto; congruence.
+Qed.
+
+Lemma fold_delete_dead l s e :
+  InvE s -> In e l -> live_e (fold_left delete_edge_ignore l s) e = false.
+Proof.
+  revert s. induction l as [|y l IH]; cbn; intros s I HI0; [destruct HI0|]. destruct HI0 as [->|HI].
+  - destruct (live_e (fold_left delete_edge_ignore l (delete_edge_ignore s e)) e) eqn:L; auto.
+    apply fold_delete_mono in L as [L _]. unfold delete_edge_ignore in L.
+    now rewrite delete_edge_kills in L.
+  - apply IH; auto. now apply InvE_delete.
+Qed.
+
+Lemma fold_delete_other l s x :
+  ~ In x l -> live_e (fold_left delete_edge_ignore l s) x = live_e s x /\
+              get_edge (fold_left delete_edge_ignore l s) x = get_edge s x.
+Proof.
+  revert s. induction l as [|e l IH]; cbn; intros s H; auto.
+  assert (Hl : ~ In x l) by (intros Hx; apply H; auto).
+  assert (Hne : x <> e) by (intros ->; apply H; auto).
+  destruct (IH (delete_edge_ignore s e) Hl) as [H1 H2]. rewrite H1, H2.
+  unfold delete_edge_ignore, delete_edge.
+  destruct (get_edge s e) as [[[[a b] t] p]|] eqn:G; cbn [fst]; auto.
+  unfold get_edge, live_e; cbn. now rewrite !upd_other.
+Qed.
+
+Lemma in_slice l n x : In x (slice l n) <-> In x l /\ a_node x = n.
+Proof. unfold slice. rewrite filter_In, N.eqb_eq. tauto. Qed.
+
+Lemma incident_In s id e :
+  InvE s -> live_e s e = true -> (fst (endp s e) = id \/ snd (endp s e) = id) ->
+  In e (map a_eid (slice (fout s) id ++ slice (bout s) id ++ slice (fin s) id ++ slice (bin s) id)).
+Proof.
+  intros I L [H|H].
+  - pose proof (a_all _ _ _ _ _ _ (e_out _ I) e L) as HA. apply in_map_iff.
+    exists (mk_ent false (endp s e) e). split; auto.
+    rewrite !in_app_iff, !in_slice. apply in_app_or in HA as [HA|HA]; cbn; auto.
+  - pose proof (a_all _ _ _ _ _ _ (e_in _ I) e L) as HA. apply in_map_iff.
+    exists (mk_ent true (endp s e) e). split; auto.
+    rewrite !in_app_iff, !in_slice. apply in_app_or in HA as [HA|HA]; cbn; auto 6.
+Qed.
+
+Lemma Inv_init : Inv init.
+Proof. split; [apply InvN_init | split; [apply InvE_init|]]. intros e H. discriminate. Qed.
+
+Lemma InvX_node_frame s ns' :
+  InvX s -> (forall n, live_n (ns s) n = true -> live_n ns' n = true) ->
+  InvX {| ns := ns'; es := es s |}.
+Proof. intros X H e L. destruct (X e L). cbn. auto. Qed.
+
+Lemma InvX_edge_frame s es' :
+  InvX s -> (forall e, live_e es' e = true -> live_e (es s) e = true /\ endp es' e = endp (es s) e) ->
+  InvX {| ns := ns s; es := es' |}.
+Proof. intros X H e L. cbn in *. destruct (H e L) as [H1 H2]. rewrite H2. now apply X. Qed.
+
+Lemma live_n_set_nprop s id k v n : live_n (fst (set_nprop s id k v)) n = live_n s n.
+Proof.
+  unfold set_nprop. destruct (nodes s id) eqn:E; cbn; auto. unfold live_n; cbn. unfold upd.
+  destruct (N.eqb_spec n id); auto. subst. now rewrite E.
+Qed.
+Lemma live_n_rem_nprop s id k n : live_n (rem_nprop s id k) n = live_n s n.
+Proof.
+  unfold rem_nprop, live_n; cbn. destruct (nodes s id) eqn:E; auto. unfold upd.
+  destruct (N.eqb_spec n id); auto. subst. now rewrite E.
+Qed.
+Lemma live_n_add_label s id l n : live_n (fst (add_label s id l)) n = live_n s n.
+Proof.
+  unfold add_label. destruct (nodes s id) eqn:E; cbn; auto. unfold live_n; cbn. unfold upd.
+  destruct (N.eqb_spec n id); auto. subst. now rewrite E.
+Qed.
+Lemma live_n_rem_label s id l n : live_n (fst (rem_label s id l)) n = live_n s n.
+Proof.
+  unfold rem_label. destruct (nodes s id) eqn:E; cbn; auto. destruct (memN l (n_labels n0)); cbn; auto.
+  unfold live_n; cbn. unfold upd. destruct (N.eqb_spec n id); auto. subst. now rewrite E.
+Qed.
+Lemma live_n_create s hint ls ps cols s' id n :
+  create_node s hint ls ps cols = (s', id) -> live_n s n = true -> live_n s' n = true.
+Proof.
+  unfold create_node. destruct (alloc _ _ _) as [[i fr] nx]. intros H; inversion H; subst.
+  unfold live_n; cbn. unfold upd. destruct (N.eqb n id); auto.
+Qed.
+
+Lemma Inv_create_node s hint ls ps cols n' id :
+  Inv s -> create_node (ns s) hint ls ps cols = (n', id) -> Inv {| ns := n'; es := es s |}.
+Proof.
+  intros [IN [IE IX]] H. split; [|split]; cbn; auto.
+  - eapply InvN_create; eauto.
+  - apply InvX_node_frame; auto. intros n. eapply live_n_create; eauto.
+Qed.
+
+Lemma Inv_create_edge s hint a b t ps stub : Inv s -> Inv (fst (create_edge s hint a b t ps stub)).
+Proof.
+  intros [IN [IE IX]]. unfold create_edge.
+  destruct (live_n (ns s) a) eqn:La; cbn; [|split; [|split]; auto].
+  destruct (live_n (ns s) b) eqn:Lb; cbn; [|split; [|split]; auto].
+  destruct (add_edge (es s) hint a b t ps stub) as [es' id] eqn:A. cbn.
+  pose proof (n_range _ IN _ La) as Ra.
+  destruct (add_edge_fresh _ _ _ _ _ _ _ _ _ IE A) as [Hd _].
+  split; [|split]; cbn; auto.
+  - eapply InvE_add; eauto. lia.
+  - intros e. cbn. unfold add_edge in A. destruct (alloc _ _ _) as [[i fr] nx]. inversion A; subst.
+    unfold live_e; cbn. unfold upd. destruct (N.eqb_spec e id) as [->|Hne]; cbn; auto; try apply IX.
+Qed.
+
+Lemma Inv_delete_node s id : Inv s -> Inv (fst (delete_node s id)).
+Proof.
+  intros [IN [IE IX]]. unfold delete_node. destruct (nodes (ns s) id) as [nd|] eqn:E; cbn; [|split; [|split]; auto].
+  set (inc := map a_eid _).
+  split; [|split]; cbn.
+  - now apply InvN_drop.
+  - now apply InvE_delete_ignore_fold.
+  - intros e L. cbn in *. destruct (fold_delete_mono _ _ _ L) as [L0 EP]. rewrite EP.
+    destruct (IX e L0) as [H1 H2].
+    assert (Hni : ~ (fst (endp (es s) e) = id \/ snd (endp (es s) e) = id)).
+    { intros Hi. pose proof (incident_In _ _ _ IE L0 Hi) as HI. fold inc in HI.
+      rewrite (fold_delete_dead _ _ _ IE HI) in L. discriminate. }
+    unfold live_n, drop_node; cbn. unfold live_n in H1, H2. rewrite !upd_other by tauto. auto.
+Qed.
+
+Lemma Inv_on_es s es' :
+  Inv s -> InvE es' ->
+  (forall e, live_e es' e = true -> live_e (es s) e = true /\ endp es' e = endp (es s) e) ->
+  Inv {| ns := ns s; es := es' |}.
+Proof. intros [IN [IE IX]] I' H. split; [|split]; cbn; auto. now apply InvX_edge_frame. Qed.
+
+Lemma Inv_step s o : Inv s -> Inv (fst (step s o)).
+Proof.
+  intros I. pose proof I as [IN [IE IX]]. destruct o; cbn [step].
+  - destruct (create_node (ns s) hint labels [] false) as [n' id] eqn:C. eapply Inv_create_node; eauto.
+  - destruct (create_node (ns s) hint labels ps true) as [n' id] eqn:C. eapply Inv_create_node; eauto.
+  - destruct (create_node (ns s) hint [label] [] false) as [n' id] eqn:C. eapply Inv_create_node; eauto.
+  - split; [|split]; cbn; auto. + now apply InvN_set_nprop.
+    + apply InvX_node_frame; auto. intros n. now rewrite live_n_set_nprop.
+  - split; [|split]; cbn; auto. + now apply InvN_rem_nprop.
+    + apply InvX_node_frame; auto. intros n. now rewrite live_n_rem_nprop.
+  - split; [|split]; cbn; auto. + now apply InvN_add_label.
+    + apply InvX_node_frame; auto. intros n. now rewrite live_n_add_label.
+  - split; [|split]; cbn; auto. + now apply InvN_rem_label.
+    + apply InvX_node_frame; auto. intros n. now rewrite live_n_rem_label.
+  - now apply Inv_delete_node.
+  - now apply Inv_create_edge.
+  - now apply Inv_create_edge.
+  - now apply Inv_create_edge.
+  - cbn. apply Inv_on_es; [exact I | now apply InvE_set_eprop |].
+    intros x. unfold set_eprop. destruct (live_e (es s) e); cbn; auto.
+  - cbn. apply Inv_on_es; [exact I | now apply InvE_rem_eprop |]. intros x; cbn; auto.
+  - cbn. apply Inv_on_es; [exact I | now apply InvE_delete |].
+    intros x L. apply delete_edge_mono in L as [[? [? _]]|[-> ?]]; auto.
+  - cbn. apply Inv_on_es; [exact I | now apply InvE_compact |].
+    intros x. unfold compact. destruct (bout (es s)), (bin (es s)); cbn; auto.
+  - cbn. apply Inv_on_es; [exact I | now apply InvE_finish |].
+    intros x. unfold finish_bulk, compact. destruct (bout (es s)), (bin (es s)); cbn; auto.
+Qed.
+
+Lemma Inv_run ops : Inv (run ops).
+Proof.
+  unfold run. assert (G : forall s, Inv s -> Inv (fold_left (fun s o => fst (step s o)) ops s)).
+  { induction ops; cbn; intros s I; auto. apply IHops. now apply Inv_step. }
+  apply G, Inv_init.
+Qed.
+
+(* ---------------------------------------------------------------- read views *)
+Lemma slice_app l1 l2 n : slice l1 n ++ slice l2 n = slice (l1 ++ l2) n.
+Proof. unfold slice. now rewrite filter_app. Qed.
+
+Lemma adj_select ep nx fr sw fro buf n (P : aent -> bool) (Q : N -> bool) :
+  AdjInv ep nx fr sw fro buf -> (forall e, lv ep e = true -> e < nx) ->
+  (forall x, In x (fro ++ buf) -> a_node x = n -> P x = Q (a_eid x)) ->
+  (forall e, Q e = true -> lv ep e = true /\ a_node (mk_ent sw (ep e) e) = n) ->
+  Permutation (map a_eid (filter P (slice fro n ++ slice buf n))) (filter Q (range nx)).
+Proof.
+  intros I R HP HQ. rewrite slice_app. apply NoDup_Permutation.
+  - apply NoDup_map_filter. unfold slice. apply NoDup_map_filter. apply (a_nd _ _ _ _ _ _ I).
+  - apply NoDup_filter, range_NoDup.
+  - intros e. rewrite in_map_iff, filter_In, range_In. split.
+    + intros [x [E Hx]]. apply filter_In in Hx as [Hx Px]. apply in_slice in Hx as [Hx Hn].
+      rewrite (HP _ Hx Hn), E in Px. split; auto. apply R. now apply HQ.
+    + intros [_ Qe]. destruct (HQ _ Qe) as [L Hn]. exists (mk_ent sw (ep e) e). split; [apply mk_ent_eid|].
+      pose proof (a_all _ _ _ _ _ _ I e L) as HA. apply filter_In. split; [now apply in_slice|].
+      rewrite (HP _ HA Hn), mk_ent_eid. auto.
+Qed.
+
+Definition has_edge_b (s : estate) (e : N) : bool :=
+  match get_edge s e with Some _ => true | None => false end.
+
+Lemma has_edge_live s e : InvE s -> has_edge_b s e = live_e s e.
+Proof.
+  intros I. unfold has_edge_b, get_edge. destruct (live_e s e) eqn:L; auto.
+  destruct (e_type _ I _ L) as [t [-> _]]. auto.
+Qed.
+
+Lemma flat_map_nonempty {A B} (f : A -> list B) (p : A -> bool) l :
+  (forall x, p x = false -> f x = []) -> flat_map f l = flat_map f (filter p l).
+Proof.
+  intros H. induction l as [|x l IH]; cbn; auto. destruct (p x) eqn:E; cbn; rewrite IH; auto.
+  now rewrite (H _ E).
+Qed.
+
+Lemma flat_map_map' {A B C} (g : A -> B) (f : B -> list C) l :
+  flat_map f (map g l) = flat_map (fun x => f (g x)) l.
+Proof. induction l; cbn; auto. now rewrite IHl. Qed.
+
+Lemma live_range s e : InvE s -> lv (endp s) e = true -> e < next_edge s.
+Proof. intros I L. destruct (e_range _ I e L). lia. Qed.
+
+(* entries of a slice resolve through the edge arrays to the same endpoints *)
+Lemma adj_entry_endp ep nx fr sw fro buf x :
+  AdjInv ep nx fr sw fro buf -> In x (fro ++ buf) -> lv ep (a_eid x) = true -> ep (a_eid x) = ent_pair sw x.
+Proof.
+  intros I Hx L. apply in_app_or in Hx as [Hx|Hx].
+  - now apply (a_fro _ _ _ _ _ _ I).
+  - now apply (a_buf _ _ _ _ _ _ I).
+Qed.
+
+Lemma filter_length' {A} (p : A -> bool) l :
+  (length (filter p l) + length (filter (fun x => negb (p x)) l) = length l)%nat.
+Proof. induction l; cbn; auto. destruct (p a); cbn; lia. Qed.
+
+Section Views.
+Variable s : state.
+Hypothesis HI : Inv s.
+Let IE : InvE (es s) := proj1 (proj2 HI).
+Let bound := next_edge (es s).
+
+(* generic: a view that maps the live entries of a node's slice selected by [sel] *)
+Lemma adj_view sw fro buf n (sel : N * N * N * props -> bool) :
+  AdjInv (endp (es s)) (next_edge (es s)) (free_edges (es s)) sw fro buf ->
+  Permutation
+    (map a_eid (filter (fun x => match get_edge (es s) (a_eid x) with Some r => sel r | None => false end)
+                       (slice fro n ++ slice buf n)))
+    (filter (fun e => match get_edge (es s) e with
+                      | Some r => sel r && N.eqb (a_node (mk_ent sw (endp (es s) e) e)) n
+                      | None => false end) (range bound)).
+Proof.
+  intros A. apply (adj_select _ _ _ _ _ _ _ _ _ A (fun e => live_range (es s) e IE)).
+  - intros x Hx Hn. destruct (get_edge (es s) (a_eid x)) as [r|] eqn:G; auto.
+    assert (L : lv (endp (es s)) (a_eid x) = true).
+    { rewrite <- live_e_lv, <- (has_edge_live _ _ IE). unfold has_edge_b. now rewrite G. }
+    rewrite (adj_entry_endp _ _ _ _ _ _ _ A Hx L), mk_ent_pair, Hn, N.eqb_refl. now rewrite andb_true_r.
+  - intros e. destruct (get_edge (es s) e) as [r|] eqn:G; [|discriminate].
+    intros H. apply andb_true_iff in H as [_ H]. apply N.eqb_eq in H. split; auto.
+    rewrite <- live_e_lv, <- (has_edge_live _ _ IE). unfold has_edge_b. now rewrite G.
+Qed.
+
+Lemma edge_tuple_lg e : edge_tuple (es s) e = lg_tuple (abs s) e.
+Proof. reflexivity. Qed.
+
+Lemma get_edge_src e a b t p : get_edge (es s) e = Some (a, b, t, p) -> endp (es s) e = (a, b).
+Proof. intros G. now destruct (get_edge_Some _ _ _ _ _ _ G) as [_ [? _]]. Qed.
+
+Lemma filter_ext' {A} (f g : A -> bool) l : (forall x, f x = g x) -> filter f l = filter g l.
+Proof. intros H. apply filter_ext_in'. auto. Qed.
+
+Theorem view_outgoing n :
+  Permutation (outgoing_edges s n) (lg_outgoing (abs s) bound n).
+Proof.
+  unfold outgoing_edges, lg_outgoing, adj_out.
+  rewrite (flat_map_nonempty _ (fun x => has_edge_b (es s) (a_eid x))).
+  2:{ intros x H. unfold edge_tuple, has_edge_b in *. destruct (get_edge (es s) (a_eid x)); [discriminate | auto]. }
+  rewrite <- (flat_map_map' a_eid (edge_tuple (es s))).
+  apply Permutation_flat_map.
+  pose proof (adj_view false _ _ n (fun _ => true) (e_out _ IE)) as P.
+  etransitivity; [etransitivity; [|exact P]|].
+  - apply Permutation_map. erewrite filter_ext'; [reflexivity|].
+    intros x. unfold has_edge_b. destruct (get_edge (es s) (a_eid x)); auto.
+  - unfold lg_rel_ids. erewrite filter_ext'; [reflexivity|]. intros e. cbn [abs lrels].
+    destruct (get_edge (es s) e) as [[[[a b] t] p]|] eqn:G; auto. rewrite (get_edge_src _ _ _ _ _ G). reflexivity.
+Qed.
+
+Theorem view_incoming n :
+  Permutation (incoming_edges s n) (lg_incoming (abs s) bound n).
+Proof.
+  unfold incoming_edges, lg_incoming, adj_in.
+  rewrite (flat_map_nonempty _ (fun x => has_edge_b (es s) (a_eid x))).
+  2:{ intros x H. unfold edge_tuple, has_edge_b in *. destruct (get_edge (es s) (a_eid x)); [discriminate | auto]. }
+  rewrite <- (flat_map_map' a_eid (edge_tuple (es s))).
+  apply Permutation_flat_map.
+  pose proof (adj_view true _ _ n (fun _ => true) (e_in _ IE)) as P.
+  etransitivity; [etransitivity; [|exact P]|].
+  - apply Permutation_map. erewrite filter_ext'; [reflexivity|].
+    intros x. unfold has_edge_b. destruct (get_edge (es s) (a_eid x)); auto.
+  - unfold lg_rel_ids. erewrite filter_ext'; [reflexivity|]. intros e. cbn [abs lrels].
+    destruct (get_edge (es s) e) as [[[[a b] t] p]|] eqn:G; auto. rewrite (get_edge_src _ _ _ _ _ G). reflexivity.
+Qed.
+
+Lemma flat_map_ext_in' {A B} (f g : A -> list B) l :
+  (forall x, In x l -> f x = g x) -> flat_map f l = flat_map g l.
+Proof. induction l; cbn; intros H; auto. rewrite (H a) by auto. rewrite IHl; auto. Qed.
+
+Lemma adj_out_In n x : In x (adj_out (es s) n) -> In x (fout (es s) ++ bout (es s)) /\ a_node x = n.
+Proof. unfold adj_out. rewrite slice_app. apply in_slice. Qed.
+Lemma adj_in_In n x : In x (adj_in (es s) n) -> In x (fin (es s) ++ bin (es s)) /\ a_node x = n.
+Proof. unfold adj_in. rewrite slice_app. apply in_slice. Qed.
+
+Lemma entry_tuple sw fro buf x :
+  AdjInv (endp (es s)) (next_edge (es s)) (free_edges (es s)) sw fro buf -> In x (fro ++ buf) ->
+  match etype (es s) (a_eid x) with
+  | Some t => [(a_eid x, fst (ent_pair sw x), snd (ent_pair sw x), t)]
+  | None => []
+  end = edge_tuple (es s) (a_eid x).
+Proof.
+  intros A Hx. unfold edge_tuple, get_edge. destruct (live_e (es s) (a_eid x)) eqn:L.
+  - rewrite live_e_lv in L. rewrite (adj_entry_endp _ _ _ _ _ _ _ A Hx L).
+    destruct (etype (es s) (a_eid x)); auto.
+  - destruct (e_dead _ IE _ L) as [-> _]. auto.
+Qed.
+
+Theorem view_out_targets n : out_targets s n = outgoing_edges s n.
+Proof.
+  unfold out_targets, outgoing_edges. apply flat_map_ext_in'. intros x Hx.
+  apply adj_out_In in Hx as [Hx Hn]. rewrite <- (entry_tuple false _ _ x (e_out _ IE) Hx). cbn. now rewrite Hn.
+Qed.
+Theorem view_in_sources n : in_sources s n = incoming_edges s n.
+Proof.
+  unfold in_sources, incoming_edges. apply flat_map_ext_in'. intros x Hx.
+  apply adj_in_In in Hx as [Hx Hn]. rewrite <- (entry_tuple true _ _ x (e_in _ IE) Hx). cbn. now rewrite Hn.
+Qed.
+
+Lemma type_is_get_edge t x :
+  type_is (es s) t x =
+  match get_edge (es s) (a_eid x) with Some (_, _, t', _) => N.eqb t' t | None => false end.
+Proof.
+  unfold type_is, get_edge. destruct (live_e (es s) (a_eid x)) eqn:L.
+  - destruct (etype (es s) (a_eid x)); auto.
+  - destruct (e_dead _ IE _ L) as [-> _]. auto.
+Qed.
+
+Lemma degree_generic sw fro buf n t :
+  AdjInv (endp (es s)) (next_edge (es s)) (free_edges (es s)) sw fro buf ->
+  (if memN t (interned (es s))
+   then N.of_nat (length (filter (type_is (es s) t) (slice fro n ++ slice buf n))) else 0) =
+  N.of_nat (length (filter (fun e => match get_edge (es s) e with
+                      | Some (a, b, t', p) => N.eqb t' t && N.eqb (a_node (mk_ent sw (endp (es s) e) e)) n
+                      | None => false end) (range bound))).
+Proof.
+  intros A. destruct (memN t (interned (es s))) eqn:M.
+  - f_equal. pose proof (adj_view sw _ _ n (fun r => let '(_, _, t', _) := r in N.eqb t' t) A) as P.
+    apply Permutation_length in P. rewrite map_length in P.
+    erewrite filter_ext'; [rewrite P|].
+    + f_equal. apply filter_ext'. intros e. destruct (get_edge (es s) e) as [[[[a b] t'] p]|]; auto.
+    + intros x. rewrite type_is_get_edge. destruct (get_edge (es s) (a_eid x)) as [[[[a b] t'] p]|]; auto.
+  - rewrite filter_none; auto. intros e _. destruct (get_edge (es s) e) as [[[[a b] t'] p]|] eqn:G; auto.
+    destruct (get_edge_Some _ _ _ _ _ _ G) as [L [_ [T _]]]. destruct (e_type _ IE _ L) as [t2 [T2 HIn]].
+    destruct (N.eqb_spec t' t) as [->|]; auto. exfalso. apply memN_false in M. apply M. congruence.
+Qed.
+
+Theorem view_out_degree n t : out_degree s n t = lg_out_degree (abs s) bound n t.
+Proof.
+  unfold out_degree, lg_out_degree, adj_out. rewrite (degree_generic false _ _ n t (e_out _ IE)).
+  f_equal. f_equal. unfold lg_rel_ids. apply filter_ext'. intros e. cbn [abs lrels].
+  destruct (get_edge (es s) e) as [[[[a b] t'] p]|] eqn:G; auto. rewrite (get_edge_src _ _ _ _ _ G). cbn.
+  apply andb_comm.
+Qed.
+Theorem view_in_degree n t : in_degree s n t = lg_in_degree (abs s) bound n t.
+Proof.
+  unfold in_degree, lg_in_degree, adj_in. rewrite (degree_generic true _ _ n t (e_in _ IE)).
+  f_equal. f_equal. unfold lg_rel_ids. apply filter_ext'. intros e. cbn [abs lrels].
+  destruct (get_edge (es s) e) as [[[[a b] t'] p]|] eqn:G; auto. rewrite (get_edge_src _ _ _ _ _ G). cbn.
+  apply andb_comm.
+Qed.
+
+Theorem view_edges_between a b ty :
+  Permutation (edges_between s a b ty) (lg_between (abs s) bound a b ty).
+Proof.
+  unfold edges_between, lg_between, lg_rel_ids, adj_out.
+  set (sel := fun r : N * N * N * props => let '(a', b', t, _) := r in
+         N.eqb a' a && N.eqb b' b && match ty with Some t' => N.eqb t t' | None => true end).
+  pose proof (adj_view false _ _ a sel (e_out _ IE)) as P.
+  etransitivity; [|etransitivity; [exact P|]].
+  - rewrite <- flat_map_select. apply Permutation_refl'. apply flat_map_ext_in'. intros x Hx.
+    fold (adj_out (es s) a) in Hx. apply adj_out_In in Hx as [Hx Hn].
+    destruct (get_edge (es s) (a_eid x)) as [[[[a' b'] t] p]|] eqn:G.
+    + assert (L : lv (endp (es s)) (a_eid x) = true) by (destruct (get_edge_Some _ _ _ _ _ _ G); auto).
+      pose proof (adj_entry_endp _ _ _ _ _ _ _ (e_out _ IE) Hx L) as EP. rewrite (get_edge_src _ _ _ _ _ G) in EP.
+      cbn in EP. inversion EP; subst. unfold sel.
+      destruct (N.eqb (a_nbr x) b); auto. now rewrite andb_false_r.
+    + now destruct (N.eqb (a_nbr x) b).
+  - apply Permutation_refl'. apply filter_ext'. intros e. cbn [abs lrels].
+    destruct (get_edge (es s) e) as [[[[a' b'] t] p]|] eqn:G; auto. rewrite (get_edge_src _ _ _ _ _ G). cbn.
+    unfold sel. destruct (N.eqb a' a); cbn; auto. now rewrite andb_true_r.
+Qed.
+
+Theorem view_edges_by_type t :
+  tstale (es s) = false -> Permutation (edges_by_type s t) (lg_by_type (abs s) bound t).
+Proof.
+  intros TS. unfold edges_by_type, lg_by_type, lg_rel_ids.
+  apply NoDup_Permutation.
+  - apply NoDup_flat_map_single; [apply (e_tidx_nd _ IE) | |].
+    + intros p. destruct (N.eqb (fst p) t); [|constructor]. destruct (get_edge (es s) (snd p)); repeat constructor. intros [].
+    + intros [t1 e1] [t2 e2] e. cbn. destruct (N.eqb_spec t1 t); [|intros []]. destruct (N.eqb_spec t2 t); [|intros _ []].
+      destruct (get_edge (es s) e1); [|intros []]. destruct (get_edge (es s) e2); [|intros _ []].
+      intros [<-|[]] [<-|[]]. congruence.
+  - apply NoDup_filter, range_NoDup.
+  - intros e. rewrite in_flat_map, filter_In, range_In. cbn [abs lrels]. split.
+    + intros [[t1 e1] [Hp He]]. cbn in He. destruct (N.eqb_spec t1 t); [|destruct He]. subst.
+      destruct (e_tidx _ IE _ _ Hp) as [L T].
+      destruct (get_edge (es s) e1) as [[[[a b] t'] p]|] eqn:G; [|destruct He]. destruct He as [<-|[]].
+      destruct (get_edge_Some _ _ _ _ _ _ G) as [_ [_ [T' _]]]. split; [apply (live_range _ _ IE); auto|].
+      rewrite G. apply N.eqb_eq. congruence.
+    + intros [_ H]. destruct (get_edge (es s) e) as [[[[a b] t'] p]|] eqn:G; [|discriminate].
+      apply N.eqb_eq in H. subst. destruct (get_edge_Some _ _ _ _ _ _ G) as [L [_ [T _]]].
+      exists (t, e). split; [now apply (e_tidx_c _ IE)|]. cbn. rewrite N.eqb_refl, G. now left.
+Qed.
+
+Theorem view_nodes_by_label l :
+  Permutation (nodes_by_label s l) (lg_by_label (abs s) (next_node (ns s)) l).
+Proof.
+  pose proof (proj1 HI) as IN. unfold nodes_by_label, lg_by_label. apply NoDup_Permutation.
+  - apply NoDup_flat_map_single; [apply (n_lidx_nd _ IN) | |].
+    + intros p. destruct (N.eqb (fst p) l && live_n (ns s) (snd p)); repeat constructor. intros [].
+    + intros [l1 n1] [l2 n2] n. cbn. destruct (N.eqb_spec l1 l); [|intros []]. destruct (N.eqb_spec l2 l); [|intros _ []].
+      cbn. destruct (live_n (ns s) n1); [|intros []]. destruct (live_n (ns s) n2); [|intros _ []].
+      intros [<-|[]] [<-|[]]. congruence.
+  - apply NoDup_filter, range_NoDup.
+  - intros n. rewrite in_flat_map, filter_In, range_In. cbn [abs lnodes]. split.
+    + intros [[l1 n1] [Hp Hn]]. cbn in Hn. destruct (N.eqb_spec l1 l); [|destruct Hn]. subst. cbn in Hn.
+      destruct (live_n (ns s) n1) eqn:L; [|destruct Hn]. destruct Hn as [<-|[]].
+      apply (n_lidx _ IN) in Hp as [nd [E Hl]]. rewrite E. split; [|now apply memN_In].
+      destruct (n_range _ IN _ L). lia.
+    + intros [_ H]. destruct (nodes (ns s) n) as [nd|] eqn:E; [|discriminate]. apply memN_In in H.
+      exists (l, n). split; [apply (n_lidx _ IN); eauto|]. cbn. rewrite N.eqb_refl. unfold live_n. rewrite E. now left.
+Qed.
+
+Theorem view_node_count : node_count s = lg_node_count (abs s) (next_node (ns s)).
+Proof. reflexivity. Qed.
+
+Theorem view_edge_count : edge_count s = lg_edge_count (abs s) bound.
+Proof.
+  unfold edge_count, lg_edge_count, lg_rel_ids. rewrite (e_fdead _ IE).
+  assert (P : Permutation (filter (fun e => live_e (es s) e) (range bound))
+                          (eids (filter (fun x => live_e (es s) (a_eid x)) (fout (es s))) ++ eids (bout (es s)))).
+  { pose proof (a_nd _ _ _ _ _ _ (e_out _ IE)) as ND. rewrite eids_app in ND.
+    apply NoDup_Permutation.
+    - apply NoDup_filter, range_NoDup.
+    - apply NoDup_app_intro.
+      + apply NoDup_map_filter. eapply NoDup_app_l; eauto.
+      + eapply NoDup_app_r; eauto.
+      + intros x H1 H2. apply in_map_iff in H1 as [y [E Hy]]. apply filter_In in Hy as [Hy _].
+        eapply NoDup_app_disj; eauto. rewrite <- E. now apply In_eids.
+    - intros e. rewrite filter_In, range_In, in_app_iff. split.
+      + intros [_ L]. pose proof (a_all _ _ _ _ _ _ (e_out _ IE) e L) as HA.
+        apply in_app_or in HA as [HA|HA]; [left | right].
+        * apply in_map_iff. exists (mk_ent false (endp (es s) e) e). split; [apply mk_ent_eid|]. apply filter_In. split; [auto | now rewrite mk_ent_eid].
+        * apply In_eids in HA. now rewrite mk_ent_eid in HA.
+      + intros [H|H]; apply in_map_iff in H as [x [E Hx]].
+        * apply filter_In in Hx as [Hx L]. rewrite E in L. split; auto. now apply (live_range _ _ IE).
+        * destruct (a_buf _ _ _ _ _ _ (e_out _ IE) _ Hx) as [L _]. rewrite E in L. split; auto. now apply (live_range _ _ IE). }
+  erewrite (filter_ext' _ (fun e => live_e (es s) e)).
+  2:{ intros e. cbn [abs lrels]. rewrite <- (has_edge_live _ _ IE). unfold has_edge_b. now destruct (get_edge (es s) e). }
+  rewrite (Permutation_length P), app_length. unfold eids. rewrite !map_length.
+  pose proof (filter_length' (fun x => live_e (es s) (a_eid x)) (fout (es s))) as FL.
+  lia.
+Qed.
+
+(* no relationship dangles from a missing node *)
+Theorem view_no_dangling e a b t p :
+  lrels (abs s) e = Some (a, b, t, p) -> lnodes (abs s) a <> None /\ lnodes (abs s) b <> None.
+Proof.
+  cbn. intros G. destruct (get_edge_Some _ _ _ _ _ _ G) as [L [EP _]].
+  destruct (proj2 (proj2 HI) e L) as [H1 H2]. rewrite EP in H1, H2. cbn in H1, H2.
+  unfold live_n in H1, H2. split; intros X; rewrite X in *; discriminate.
+Qed.
+
+End Views.
+
+(* ---------------------------------------------------------------- refinement *)
+Lemma get_edge_ext s s' e :
+  endp s' e = endp s e -> etype s' e = etype s e -> eprops s' e = eprops s e -> get_edge s' e = get_edge s e.
+Proof. intros H1 H2 H3. unfold get_edge, live_e. now rewrite H1, H2, H3. Qed.
+
+Lemma set_rem_notin l ls : ~ In l ls -> set_rem l ls = ls.
+Proof.
+  induction ls as [|x ls IH]; cbn; intros H; auto. destruct (N.eqb_spec x l) as [->|Hne]; cbn.
+  - exfalso. apply H. auto.
+  - f_equal. apply IH. auto.
+Qed.
+
+Lemma upd_id {A} (f : N -> A) k v x : f k = v -> upd f k v x = f x.
+Proof. intros H. unfold upd. destruct (N.eqb_spec x k); congruence. Qed.
+
+Lemma refines_create_node s hint ls ps cols n' id :
+  create_node (ns s) hint ls ps cols = (n', id) ->
+  forall n, nodes n' n = upd (nodes (ns s)) id (Some {| n_labels := dedup ls; n_props := pset_all ps [] |}) n.
+Proof.
+  unfold create_node. destruct (alloc _ _ _) as [[i fr] nx]. intros H; inversion H; subst. reflexivity.
+Qed.
+
+Lemma refines_delete_node s id nd e :
+  Inv s -> nodes (ns s) id = Some nd ->
+  get_edge (fold_left delete_edge_ignore
+      (map a_eid (slice (fout (es s)) id ++ slice (bout (es s)) id ++ slice (fin (es s)) id ++ slice (bin (es s)) id))
+      (es s)) e =
+  if lg_incident (abs s) id e then None else get_edge (es s) e.
+Proof.
+  intros [IN [IE IX]] E. set (inc := map a_eid _).
+  assert (HInc : lg_incident (abs s) id e = true -> In e inc).
+  { unfold lg_incident. cbn [abs lrels]. destruct (get_edge (es s) e) as [[[[a b] t] p]|] eqn:G; [|discriminate].
+    destruct (get_edge_Some _ _ _ _ _ _ G) as [L [EP _]]. intros H. apply incident_In; auto.
+    rewrite EP. cbn. apply orb_true_iff in H as [H|H]; apply N.eqb_eq in H; auto. }
+  destruct (in_dec N.eq_dec e inc) as [Hin|Hnin].
+  - assert (D : get_edge (fold_left delete_edge_ignore inc (es s)) e = None).
+    { unfold get_edge. now rewrite (fold_delete_dead _ _ _ IE Hin). }
+    rewrite D. destruct (lg_incident (abs s) id e) eqn:LI; auto.
+    unfold lg_incident in LI. cbn [abs lrels] in LI.
+    destruct (get_edge (es s) e) as [[[[a b] t] p]|] eqn:G; auto. exfalso.
+    destruct (get_edge_Some _ _ _ _ _ _ G) as [L [EP _]].
+    apply in_map_iff in Hin as [x [Ex Hx]]. rewrite !in_app_iff, !in_slice in Hx. subst e.
+    rewrite live_e_lv in L.
+    assert (a = id \/ b = id).
+    { destruct Hx as [[Hx Hn]|[[Hx Hn]|[[Hx Hn]|[Hx Hn]]]].
+      - pose proof (adj_entry_endp _ _ _ _ _ _ _ (e_out _ IE) (in_or_app _ _ _ (or_introl Hx)) L) as Q.
+        rewrite EP in Q. cbn in Q. inversion Q. left. congruence.
+      - pose proof (adj_entry_endp _ _ _ _ _ _ _ (e_out _ IE) (in_or_app _ _ _ (or_intror Hx)) L) as Q.
+        rewrite EP in Q. cbn in Q. inversion Q. left. congruence.
+      - pose proof (adj_entry_endp _ _ _ _ _ _ _ (e_in _ IE) (in_or_app _ _ _ (or_introl Hx)) L) as Q.
+        rewrite EP in Q. cbn in Q. inversion Q. right. congruence.
+      - pose proof (adj_entry_endp _ _ _ _ _ _ _ (e_in _ IE) (in_or_app _ _ _ (or_intror Hx)) L) as Q.
+        rewrite EP in Q. cbn in Q. inversion Q. right. congruence. }
+    destruct H as [->| ->]; rewrite N.eqb_refl in LI; cbn in LI; try discriminate.
+    rewrite orb_true_r in LI. discriminate.
+  - destruct (fold_delete_other inc (es s) e Hnin) as [_ ->].
+    destruct (lg_incident (abs s) id e) eqn:LI; auto. exfalso. auto.
+Qed.
+
+Lemma refines_create_edge s hint a b t ps stub :
+  Inv s ->
+  (forall n, nodes (ns (fst (create_edge s hint a b t ps stub))) n = nodes (ns s) n) /\
+  match snd (create_edge s hint a b t ps stub) with
+  | ROk id => forall x, get_edge (es (fst (create_edge s hint a b t ps stub))) x =
+                        upd (get_edge (es s)) id (Some (a, b, t, pset_all ps [])) x
+  | RErr _ => forall x, get_edge (es (fst (create_edge s hint a b t ps stub))) x = get_edge (es s) x
+  end.
+Proof.
+  intros [IN [IE IX]]. unfold create_edge.
+  destruct (live_n (ns s) a) eqn:La; cbn; [|auto].
+  destruct (live_n (ns s) b) eqn:Lb; cbn; [|auto].
+  destruct (add_edge (es s) hint a b t ps stub) as [es' id] eqn:A. cbn. split; auto.
+  destruct (add_edge_fresh _ _ _ _ _ _ _ _ _ IE A) as [Hd _].
+  destruct (e_dead _ IE _ Hd) as [_ [HP _]].
+  pose proof (n_range _ IN _ La) as Ra.
+  unfold add_edge in A. destruct (alloc _ _ _) as [[i fr] nx]. inversion A; subst. clear A.
+  intros x. destruct (N.eq_dec x id) as [->|Hne].
+  - rewrite upd_same. unfold get_edge, live_e; cbn. rewrite !upd_same. unfold zero2; cbn.
+    destruct (N.eqb_spec a 0); [lia|]. cbn. destruct ps; [now rewrite HP | now rewrite upd_same].
+  - rewrite upd_other by auto. apply get_edge_ext; cbn; rewrite ?upd_other by auto; auto.
+    destruct ps; rewrite ?upd_other by auto; auto.
+Qed.
+
+Theorem refines s o : Inv s -> lg_equiv (abs (fst (step s o))) (lg_step (abs s) o (snd (step s o))).
+Proof.
+  intros I. pose proof I as [IN [IE IX]]. destruct o; cbn [step].
+  - destruct (create_node (ns s) hint labels [] false) as [n' id] eqn:C. cbn.
+    split; cbn; auto. intros n. now rewrite (refines_create_node _ _ _ _ _ _ _ C).
+  - destruct (create_node (ns s) hint labels ps true) as [n' id] eqn:C. cbn.
+    split; cbn; auto. intros n. now rewrite (refines_create_node _ _ _ _ _ _ _ C).
+  - destruct (create_node (ns s) hint [label] [] false) as [n' id] eqn:C. cbn.
+    split; cbn; auto. intros n. now rewrite (refines_create_node _ _ _ _ _ _ _ C).
+  - unfold set_nprop. cbn. destruct (nodes (ns s) id) eqn:E; cbn; split; cbn; auto; now rewrite E.
+  - unfold rem_nprop. cbn. destruct (nodes (ns s) id) eqn:E; cbn; split; cbn; auto; now rewrite E.
+  - unfold add_label. cbn. destruct (nodes (ns s) id) eqn:E; cbn; split; cbn; auto; now rewrite E.
+  - unfold rem_label. cbn. destruct (nodes (ns s) id) eqn:E; cbn; [|split; cbn; auto; now rewrite E].
+    destruct (memN l (n_labels n)) eqn:M; cbn; split; cbn; auto; try rewrite E; cbn; auto.
+    intros x. apply memN_false in M. rewrite (set_rem_notin _ _ M). symmetry. apply upd_id. rewrite E. now destruct n.
+  - unfold delete_node. destruct (nodes (ns s) id) as [nd|] eqn:E; cbn; [|split; auto].
+    split; cbn; auto. intros e. now apply refines_delete_node with (nd := nd).
+  - destruct (refines_create_edge s hint a b t [] false I) as [H1 H2].
+    destruct (snd (create_edge s hint a b t [] false)); split; cbn; auto.
+  - destruct (refines_create_edge s hint a b t ps false I) as [H1 H2].
+    destruct (snd (create_edge s hint a b t ps false)); split; cbn; auto.
+  - destruct (refines_create_edge s hint a b t [] true I) as [H1 H2].
+    destruct (snd (create_edge s hint a b t [] true)); split; cbn; auto.
+  - unfold set_eprop. cbn. destruct (live_e (es s) e) eqn:L; cbn; [|split; auto].
+    cbn [abs lrels lnodes]. destruct (get_edge (es s) e) as [[[[a b] t] p]|] eqn:G.
+    + destruct (get_edge_Some _ _ _ _ _ _ G) as [_ [EP [T Pp]]]. split; cbn; auto. intros x.
+      destruct (N.eq_dec x e) as [->|Hne].
+      * rewrite upd_same. unfold get_edge at 1. unfold live_e in *; cbn. rewrite L, T, upd_same, EP, Pp. reflexivity.
+      * rewrite upd_other by auto. apply get_edge_ext; cbn; auto. now rewrite upd_other.
+    + split; cbn; auto. intros x. destruct (N.eq_dec x e) as [->|Hne].
+      * rewrite G. unfold get_edge in *. unfold live_e in *; cbn. rewrite L in *. destruct (etype (es s) e); [discriminate | auto].
+      * apply get_edge_ext; cbn; auto. now rewrite upd_other.
+  - cbn. cbn [abs lrels lnodes]. destruct (get_edge (es s) e) as [[[[a b] t] p]|] eqn:G.
+    + destruct (get_edge_Some _ _ _ _ _ _ G) as [L [EP [T Pp]]]. split; cbn; auto. intros x.
+      destruct (N.eq_dec x e) as [->|Hne].
+      * rewrite upd_same. unfold get_edge at 1. unfold rem_eprop. unfold live_e in *; cbn. rewrite L, T, upd_same, EP, Pp. reflexivity.
+      * rewrite upd_other by auto. apply get_edge_ext; cbn; auto. destruct (live_e (es s) e); [now rewrite upd_other | auto].
+    + split; cbn; auto. intros x. destruct (N.eq_dec x e) as [->|Hne].
+      * rewrite G. unfold get_edge in *. unfold rem_eprop. unfold live_e in *; cbn.
+        destruct (negb (zero2 (endp (es s) e))); auto. destruct (etype (es s) e); [discriminate | auto].
+      * apply get_edge_ext; cbn; auto. destruct (live_e (es s) e); [now rewrite upd_other | auto].
+  - unfold delete_edge. cbn. destruct (get_edge (es s) e) as [[[[a b] t] p]|] eqn:G; cbn; [|split; auto].
+    split; cbn; auto. intros x. destruct (N.eq_dec x e) as [->|Hne].
+    + rewrite upd_same. unfold get_edge, live_e; cbn. now rewrite upd_same.
+    + rewrite upd_other by auto. apply get_edge_ext; cbn; now rewrite upd_other.
+  - split; cbn; auto. intros x. apply get_edge_ext; unfold compact; destruct (bout (es s)), (bin (es s)); reflexivity.
+  - split; cbn; auto. intros x. apply get_edge_ext; unfold finish_bulk, compact; destruct (bout (es s)), (bin (es s)); reflexivity.
+Qed.
+
+(* a freshly allocated id belonged to nobody: no node/relationship, empty column row,
+   and no live relationship touches a fresh node id *)
+Theorem fresh_node s hint ls ps cols n' id :
+  Inv s -> create_node (ns s) hint ls ps cols = (n', id) ->
+  lnodes (abs s) id = None /\ ncols (ns s) id = [] /\
+  (forall e a b t p, lrels (abs s) e = Some (a, b, t, p) -> a <> id /\ b <> id).
+Proof.
+  intros [IN [IE IX]] C. destruct (create_node_fresh _ _ _ _ _ _ _ IN C) as [Hd _].
+  split; [|split].
+  - cbn. unfold live_n in Hd. destruct (nodes (ns s) id); [discriminate | auto].
+  - now apply (n_cols _ IN).
+  - cbn. intros e a b t p G. destruct (get_edge_Some _ _ _ _ _ _ G) as [L [EP _]].
+    destruct (IX e L) as [H1 H2]. rewrite EP in H1, H2. cbn in H1, H2. split; congruence.
+Qed.
+
+Theorem fresh_edge s hint a b t ps stub es' id :
+  Inv s -> add_edge (es s) hint a b t ps stub = (es', id) ->
+  lrels (abs s) id = None /\ ecols (es s) id = [] /\ eprops (es s) id = None /\
+  ~ In id (map a_eid (bout (es s) ++ bin (es s))).
+Proof.
+  intros [IN [IE IX]] A. destruct (add_edge_fresh _ _ _ _ _ _ _ _ _ IE A) as [Hd _].
+  destruct (e_dead _ IE _ Hd) as [_ [H1 H2]]. repeat split; auto.
+  - cbn. unfold get_edge. now rewrite Hd.
+  - intros HI. apply in_map_iff in HI as [x [E Hx]]. apply in_app_or in Hx as [Hx|Hx].
+    + destruct (a_buf _ _ _ _ _ _ (e_out _ IE) _ Hx) as [L _]. rewrite E in L. rewrite live_e_lv in Hd. congruence.
+    + destruct (a_buf _ _ _ _ _ _ (e_in _ IE) _ Hx) as [L _]. rewrite E in L. rewrite live_e_lv in Hd. congruence.
 Qed.
